@@ -201,6 +201,22 @@ func checkC15(ctx *Ctx) {
 	if !ctx.Quick() {
 		exhaustiveLane(ctx, "exhaustive-d3", c15SmallAlphabet(), c15InitStates()[:5], 3)
 	}
+	// aliasing lane: LMOVE in every direction between lists whose backing arrays have spare capacity (built by
+	// single pushes, shortened by pops), followed by pushes on the source and on the destination; the
+	// whole-store dump after every step shows an element written through a shared array
+	aliasAlpha := [][]string{
+		{"LMOVE", "a", "b", "LEFT", "LEFT"}, {"LMOVE", "a", "b", "LEFT", "RIGHT"}, {"LMOVE", "a", "b", "RIGHT", "LEFT"}, {"LMOVE", "a", "b", "RIGHT", "RIGHT"},
+		{"LMOVE", "b", "a", "RIGHT", "LEFT"}, {"LMOVE", "b", "a", "LEFT", "RIGHT"}, {"LMOVE", "a", "a", "RIGHT", "LEFT"},
+		{"RPUSH", "a", "p"}, {"RPUSH", "b", "q"}, {"LPUSH", "a", "r"}, {"LPUSH", "b", "s"}, {"LSET", "a", "0", "t"}, {"LSET", "b", "-1", "u"},
+		{"RPOP", "a"}, {"LPOP", "b"}, {"LTRIM", "a", "0", "1"},
+	}
+	aliasInits := [][][]string{
+		{{"RPUSH", "a", "x"}, {"RPUSH", "a", "y"}, {"RPUSH", "a", "z"}, {"RPUSH", "b", "m"}},
+		{{"RPUSH", "a", "x"}, {"RPUSH", "a", "y"}, {"RPUSH", "a", "z"}, {"RPUSH", "a", "w"}, {"RPOP", "a"}, {"RPUSH", "b", "m"}, {"LPOP", "b"}},
+		{{"RPUSH", "a", "1", "2", "3", "4", "5"}, {"LTRIM", "a", "0", "2"}, {"RPUSH", "b", "m"}, {"RPUSH", "b", "n"}},
+	}
+	exhaustiveLane(ctx, "alias-d2", aliasAlpha, aliasInits, 2)
+	exhaustiveLane(ctx, "alias-d3", aliasAlpha, aliasInits, 3)
 	ctx.exhaustive = false
 	gens, weights := listGens()
 	randomLane(ctx, "random", ctx.N(500, 8000), gens, weights, listUniverse(), 40, 60, 0.04, lightInst)
